@@ -3,14 +3,17 @@
 //   mode s : SharedString = Cow<'static, str>                (public API)
 //   mode t : Cow<'static, [Tracked]>  (metrics::__VerifCow)  (element type with a counting destructor)
 //   mode k : Cow<'static, [Label]> inside metrics::Key       (public Key/Label API)
-// stdin : one case per line  `<mode> | <op> <op> ...`   (contents are hex, one byte = one element)
-//   b<hex> from_borrowed      c<hex> const_str/const_slice      o<hex>:<cap>:<variant> from owned
+//   mode l : Cow<'static, [Label]>    (metrics::__VerifCow)  (label slices with every constructor incl. Arc<[Label]>)
+// stdin : one case per line  `<mode> <statichex|-> | <op> <op> ...`   (contents are hex, one byte = one element)
+//   ONE static buffer is leaked per case; every borrowed value is a slice of it, so borrows can start at the
+//   same address with different lengths, overlap, or hold equal content at different addresses.
+//   b<off>,<len> from_borrowed(&buf[off..off+len])   c<off>,<len> const_str/const_slice   o<hex>:<cap>:<variant> from owned
 //   z<n> from_owned(Vec<Zst>) s<r> from_shared(arc r .clone())  l<h> clone   d<h> deref
-//   m<h>,<h'> cmp/eq/hash     i<h> into_owned                   x<h> drop    X<h> drop on another thread
+//   m<h>,<h'> cmp, eq, hash equality (three separate observables)     i<h> into_owned                   x<h> drop    X<h> drop on another thread
 //   j<h> into std::borrow::Cow (s and t modes)
 //   w<h>:<hex> with_extra     A<hex> Arc::from   C<r> caller Arc::clone   D<r> caller drops one Arc
 // stdout: one line per case, one token per op:  <res>/<dblocks>/<delems>/<strong,strong,..>
-//   res: u | c<hex> | m<0|1|2> | jB<hex> | jO<hex> | p | bad | f<Fault>
+//   res: u | c<hex> | m<ord 0|1|2><eq 0|1><hash-eq 0|1> | jB<hex> | jO<hex> | p | bad | f<Fault>
 // A counting global allocator (header + quarantine + poison) reports live-block deltas measured
 // tightly around the operation on the real type, and flags frees of blocks that are not live or
 // whose layout differs.  The process supervises a worker copy of itself, so that a crash in the
@@ -103,6 +106,7 @@ impl Clone for Zst { fn clone(&self) -> Self { Zst::new() } }
 impl Drop for Zst { fn drop(&mut self) { LIVE_ELEMS.fetch_sub(1, SeqCst); } }
 
 type TCow = metrics::__VerifCow<'static, [Tracked]>;
+type LCow = metrics::__VerifCow<'static, [Label]>;
 
 // per-id Arc<str> used as the key of label <id>: strong_count - 1 = live instances of that label
 const NIDS: usize = 256;
@@ -133,17 +137,21 @@ macro_rules! std_cow_probe {
 }
 std_cow_probe!(ProbeS, YesS, NoS, std::borrow::Cow<'static, str>);
 std_cow_probe!(ProbeT, YesT, NoT, std::borrow::Cow<'static, [Tracked]>);
+std_cow_probe!(ProbeL, YesL, NoL, std::borrow::Cow<'static, [Label]>);
 
 // ------------------------------------------------------------------------------ the three handle types
 trait Hd: Sized + Send + 'static {
     type A: Clone;
-    fn borrowed(d: &[u8], konst: bool) -> Self;               // d is leaked by the caller beforehand
+    type Buf: ?Sized + 'static;
+    fn leak_buf(d: &[u8]) -> &'static Self::Buf;               // the one static buffer of the case
+    fn borrowed(buf: &'static Self::Buf, off: usize, len: usize, konst: bool) -> Self;   // &buf[off..off+len]
     fn owned(d: &[u8], cap: usize, variant: u8) -> Result<Self, &'static str>;
     fn owned_zst(_n: usize) -> Option<()> { None }
     fn shared(a: &Self::A) -> Option<Self>;
     fn clone_h(&self) -> Self;
     fn read(&self, out: &mut Vec<u8>);
-    fn cmp3(&self, o: &Self) -> Option<u8>;
+    /// (Ord::cmp, PartialEq::eq, hash(a) == hash(b)); None if ne / partial_cmp contradict eq / cmp
+    fn cmp3(&self, o: &Self) -> Option<(u8, bool, bool)>;
     fn into_owned_read(self, out: &mut Vec<u8>);
     /// Some(true) = Borrowed, Some(false) = Owned, None = the conversion does not exist for this type
     fn into_std_read(self, _out: &mut Vec<u8>) -> Option<bool> { None }
@@ -157,8 +165,10 @@ fn ord3(o: std::cmp::Ordering) -> u8 { match o { std::cmp::Ordering::Less => 0, 
 
 impl Hd for SharedString {
     type A = Arc<str>;
-    fn borrowed(d: &[u8], konst: bool) -> Self {
-        let s: &'static str = Box::leak(String::from_utf8(d.to_vec()).unwrap().into_boxed_str());
+    type Buf = str;
+    fn leak_buf(d: &[u8]) -> &'static str { Box::leak(String::from_utf8(d.to_vec()).unwrap().into_boxed_str()) }
+    fn borrowed(buf: &'static str, off: usize, len: usize, konst: bool) -> Self {
+        let s: &'static str = &buf[off..off + len];
         if konst { SharedString::const_str(s) } else { SharedString::from_borrowed(s) }
     }
     fn owned(d: &[u8], cap: usize, variant: u8) -> Result<Self, &'static str> {
@@ -174,12 +184,12 @@ impl Hd for SharedString {
     fn shared(a: &Arc<str>) -> Option<Self> { Some(SharedString::from_shared(a.clone())) }
     fn clone_h(&self) -> Self { self.clone() }
     fn read(&self, out: &mut Vec<u8>) { let s: &str = self; out.extend_from_slice(s.as_bytes()); }
-    fn cmp3(&self, o: &Self) -> Option<u8> {
+    fn cmp3(&self, o: &Self) -> Option<(u8, bool, bool)> {
         let c = ord3(self.cmp(o));
         let e = self == o;
         let he = hash_of(self) == hash_of(o);
-        if (c == 1) != e || he != e || self.partial_cmp(o).map(ord3) != Some(c) { return None; }
-        Some(c)
+        if (self != o) == e || self.partial_cmp(o).map(ord3) != Some(c) { return None; }
+        Some((c, e, he))
     }
     fn into_owned_read(self, out: &mut Vec<u8>) { let s: String = self.into_owned(); out.extend_from_slice(s.as_bytes()); drop(s); }
     fn into_std_read(self, out: &mut Vec<u8>) -> Option<bool> {
@@ -204,8 +214,10 @@ impl Hd for SharedString {
 
 impl Hd for TCow {
     type A = Arc<[Tracked]>;
-    fn borrowed(d: &[u8], konst: bool) -> Self {
-        let s: &'static [Tracked] = Box::leak(d.iter().map(|v| Tracked::new(*v)).collect::<Vec<_>>().into_boxed_slice());
+    type Buf = [Tracked];
+    fn leak_buf(d: &[u8]) -> &'static [Tracked] { Box::leak(d.iter().map(|v| Tracked::new(*v)).collect::<Vec<_>>().into_boxed_slice()) }
+    fn borrowed(buf: &'static [Tracked], off: usize, len: usize, konst: bool) -> Self {
+        let s: &'static [Tracked] = &buf[off..off + len];
         if konst { TCow::const_slice(s) } else { TCow::from_borrowed(s) }
     }
     fn owned(d: &[u8], cap: usize, variant: u8) -> Result<Self, &'static str> {
@@ -226,12 +238,12 @@ impl Hd for TCow {
     fn shared(a: &Arc<[Tracked]>) -> Option<Self> { Some(TCow::from_shared(a.clone())) }
     fn clone_h(&self) -> Self { self.clone() }
     fn read(&self, out: &mut Vec<u8>) { let s: &[Tracked] = self; for t in s { out.push(t.v); } }
-    fn cmp3(&self, o: &Self) -> Option<u8> {
+    fn cmp3(&self, o: &Self) -> Option<(u8, bool, bool)> {
         let c = ord3(self.cmp(o));
         let e = self == o;
         let he = hash_of(self) == hash_of(o);
-        if (c == 1) != e || he != e || self.partial_cmp(o).map(ord3) != Some(c) { return None; }
-        Some(c)
+        if (self != o) == e || self.partial_cmp(o).map(ord3) != Some(c) { return None; }
+        Some((c, e, he))
     }
     fn into_owned_read(self, out: &mut Vec<u8>) { let v: Vec<Tracked> = self.into_owned(); for t in &v { out.push(t.v); } drop(v); }
     fn into_std_read(self, out: &mut Vec<u8>) -> Option<bool> {
@@ -258,8 +270,10 @@ impl Hd for TCow {
 
 impl Hd for Key {
     type A = ();
-    fn borrowed(d: &[u8], konst: bool) -> Self {
-        let s: &'static [Label] = Box::leak(d.iter().map(|v| mk_label(*v)).collect::<Vec<_>>().into_boxed_slice());
+    type Buf = [Label];
+    fn leak_buf(d: &[u8]) -> &'static [Label] { Box::leak(d.iter().map(|v| mk_label(*v)).collect::<Vec<_>>().into_boxed_slice()) }
+    fn borrowed(buf: &'static [Label], off: usize, len: usize, konst: bool) -> Self {
+        let s: &'static [Label] = &buf[off..off + len];
         if konst { Key::from_static_parts("n", s) } else { Key::from_static_labels("n", s) }
     }
     fn owned(d: &[u8], cap: usize, variant: u8) -> Result<Self, &'static str> {
@@ -274,16 +288,70 @@ impl Hd for Key {
     fn shared(_a: &()) -> Option<Self> { None }
     fn clone_h(&self) -> Self { self.clone() }
     fn read(&self, out: &mut Vec<u8>) { for l in self.labels() { out.push(label_id(l)); } }
-    fn cmp3(&self, o: &Self) -> Option<u8> {
+    fn cmp3(&self, o: &Self) -> Option<(u8, bool, bool)> {
+        // Key does not expose its label Cow: the labels are compared / hashed element by element
+        // (through Label's derived impls, i.e. through the two Cow<str> of each label)
         let c = ord3(self.labels().cmp(o.labels()));
         let e = self.labels().eq(o.labels());
-        if (c == 1) != e { return None; }
-        Some(c)
+        let (va, vb): (Vec<&Label>, Vec<&Label>) = (self.labels().collect(), o.labels().collect());
+        let he = hash_of(&va) == hash_of(&vb);
+        if self.labels().ne(o.labels()) == e || self.labels().partial_cmp(o.labels()).map(ord3) != Some(c) { return None; }
+        Some((c, e, he))
     }
     fn into_owned_read(self, out: &mut Vec<u8>) { let (_n, v) = self.into_parts(); for l in &v { out.push(label_id(l)); } drop(v); }
     fn with_extra(&self, extra: &[u8]) -> Self { self.with_extra_labels(extra.iter().map(|x| mk_label(*x)).collect()) }
     fn new_arc(_d: &[u8]) -> Option<()> { None }
     fn strong(_a: &()) -> usize { 0 }
+    fn live_elems() -> i64 { label_arcs().iter().map(|a| Arc::strong_count(a) as i64 - 1).sum() }
+}
+
+impl Hd for LCow {
+    type A = Arc<[Label]>;
+    type Buf = [Label];
+    fn leak_buf(d: &[u8]) -> &'static [Label] { Box::leak(d.iter().map(|v| mk_label(*v)).collect::<Vec<_>>().into_boxed_slice()) }
+    fn borrowed(buf: &'static [Label], off: usize, len: usize, konst: bool) -> Self {
+        let s: &'static [Label] = &buf[off..off + len];
+        if konst { LCow::const_slice(s) } else { LCow::from_borrowed(s) }
+    }
+    fn owned(d: &[u8], cap: usize, variant: u8) -> Result<Self, &'static str> {
+        let v: Vec<Label> = match variant {
+            1 => Vec::new(),
+            2 => d.iter().map(|v| mk_label(*v)).collect(),
+            _ => { let mut v = Vec::with_capacity(cap); for x in d { v.push(mk_label(*x)); } v }
+        };
+        if v.len() != d.len() || v.capacity() != cap { return Err("capmismatch"); }
+        Ok(if variant == 2 { LCow::from(v) } else { LCow::from_owned(v) })
+    }
+    fn shared(a: &Arc<[Label]>) -> Option<Self> { Some(LCow::from_shared(a.clone())) }
+    fn clone_h(&self) -> Self { self.clone() }
+    fn read(&self, out: &mut Vec<u8>) { let s: &[Label] = self; for l in s { out.push(label_id(l)); } }
+    fn cmp3(&self, o: &Self) -> Option<(u8, bool, bool)> {
+        let c = ord3(self.cmp(o));
+        let e = self == o;
+        let he = hash_of(self) == hash_of(o);
+        if (self != o) == e || self.partial_cmp(o).map(ord3) != Some(c) { return None; }
+        Some((c, e, he))
+    }
+    fn into_owned_read(self, out: &mut Vec<u8>) { let v: Vec<Label> = self.into_owned(); for l in &v { out.push(label_id(l)); } drop(v); }
+    fn into_std_read(self, out: &mut Vec<u8>) -> Option<bool> {
+        let p = ProbeL(std::cell::Cell::new(Some(self)));
+        let c: std::borrow::Cow<'static, [Label]> = (&p).conv()?;
+        for l in c.iter() { out.push(label_id(l)); }
+        let b = matches!(c, std::borrow::Cow::Borrowed(_));
+        drop(c);
+        Some(b)
+    }
+    fn with_extra(&self, extra: &[u8]) -> Self {
+        if extra.is_empty() { return self.clone(); }
+        let mut v = self.clone().into_owned();
+        v.extend(extra.iter().map(|x| mk_label(*x)));
+        v.into()
+    }
+    fn new_arc(d: &[u8]) -> Option<Arc<[Label]>> {
+        let v: Vec<Label> = d.iter().map(|v| mk_label(*v)).collect();
+        Some(Arc::from(v))
+    }
+    fn strong(a: &Arc<[Label]>) -> usize { Arc::strong_count(a) }
     fn live_elems() -> i64 { label_arcs().iter().map(|a| Arc::strong_count(a) as i64 - 1).sum() }
 }
 
@@ -294,10 +362,11 @@ fn hex(b: &[u8]) -> String { b.iter().map(|x| format!("{:02x}", x)).collect() }
 struct Snap { blocks: i64, elems: i64, bad: i64 }
 fn snap<H: Hd>() -> Snap { Snap { blocks: LIVE_BLOCKS.load(SeqCst), elems: H::live_elems(), bad: BAD_FREES.load(SeqCst) } }
 
-enum R { Unit, Content, Std(bool), Cmp(u8), Panic, Bad, Fault(&'static str) }
+enum R { Unit, Content, Std(bool), Cmp(u8, bool, bool), Panic, Bad, Fault(&'static str) }
 
-fn run_ops<H: Hd>(ops: &str) -> String {
+fn run_ops<H: Hd>(stat: &[u8], ops: &str) -> String {
     let toks: Vec<&str> = ops.split_whitespace().collect();
+    let sbuf: &'static H::Buf = H::leak_buf(stat);   // lives forever; made before anything is measured
     let mut hs: Vec<Option<H>> = Vec::with_capacity(toks.len() + 1);
     let mut arcs: Vec<Vec<H::A>> = Vec::with_capacity(toks.len() + 1);
     let mut scratch: Vec<u8> = Vec::with_capacity(1 << 16);
@@ -307,7 +376,7 @@ fn run_ops<H: Hd>(ops: &str) -> String {
         scratch.clear();
         // everything the operation needs is prepared before the measured region
         let arg = |i: usize| -> &str { rest.split(|ch| ch == ':' || ch == ',').nth(i).unwrap_or("") };
-        let data = if matches!(c, "b" | "c" | "o" | "A") { unhex(arg(0)) } else if c == "w" { unhex(arg(1)) } else { Vec::new() };
+        let data = if matches!(c, "o" | "A") { unhex(arg(0)) } else if c == "w" { unhex(arg(1)) } else { Vec::new() };
         let hidx: usize = if matches!(c, "l" | "d" | "m" | "i" | "j" | "x" | "X" | "w" | "s" | "C" | "D" | "z") { arg(0).parse().unwrap() } else { 0 };
         let mut new_h: Option<H> = None;
         let mut new_arc: Option<H::A> = None;
@@ -316,11 +385,14 @@ fn run_ops<H: Hd>(ops: &str) -> String {
         let live = |hs: &Vec<Option<H>>, i: usize| i < hs.len() && hs[i].is_some();
         match c {
             "b" | "c" => {
-                // the static itself is made outside the region (it lives forever)
-                let mut res = std::panic::catch_unwind(|| H::borrowed(&data, c == "c"));
-                b = snap::<H>(); a = snap::<H>();
-                r = match res.as_mut() { Ok(_) => R::Unit, Err(_) => R::Panic };
-                if let Ok(h) = res { new_h = Some(h); }
+                let off: usize = arg(0).parse().unwrap();
+                let len: usize = arg(1).parse().unwrap();
+                if off + len <= stat.len() {
+                    b = snap::<H>();
+                    let res = std::panic::catch_unwind(std::panic::AssertUnwindSafe(|| H::borrowed(sbuf, off, len, c == "c"))).map_err(|_| ());
+                    a = snap::<H>();
+                    r = match res { Ok(h) => { new_h = Some(h); R::Unit } Err(_) => R::Panic };
+                } else { b = snap::<H>(); a = snap::<H>(); r = R::Bad; }                  // no such slice
             }
             "o" => {
                 let cap: usize = arg(1).parse().unwrap();
@@ -366,7 +438,7 @@ fn run_ops<H: Hd>(ops: &str) -> String {
                     b = snap::<H>();
                     let c3 = hs[hidx].as_ref().unwrap().cmp3(hs[h2].as_ref().unwrap());
                     a = snap::<H>();
-                    r = match c3 { Some(x) => R::Cmp(x), None => R::Fault("Incoherent") };
+                    r = match c3 { Some((x, e, he)) => R::Cmp(x, e, he), None => R::Fault("Incoherent") };
                 } else { b = snap::<H>(); a = snap::<H>(); r = R::Bad; }
             }
             "i" => {
@@ -442,7 +514,7 @@ fn run_ops<H: Hd>(ops: &str) -> String {
         else if c == "C" && !slot.is_empty() { let x = slot.pop().unwrap(); arcs[hidx].push(x); }
         let res = if a.bad != b.bad { "fBadFree".to_string() } else {
             match r {
-                R::Unit => "u".into(), R::Content => format!("c{}", hex(&scratch)), R::Std(bw) => format!("j{}{}", if bw { "B" } else { "O" }, hex(&scratch)), R::Cmp(x) => format!("m{}", x),
+                R::Unit => "u".into(), R::Content => format!("c{}", hex(&scratch)), R::Std(bw) => format!("j{}{}", if bw { "B" } else { "O" }, hex(&scratch)), R::Cmp(x, e, he) => format!("m{}{}{}", x, e as u8, he as u8),
                 R::Panic => "p".into(), R::Bad => "bad".into(), R::Fault(f) => format!("f{}", f),
             }
         };
@@ -456,12 +528,16 @@ fn run_ops<H: Hd>(ops: &str) -> String {
 }
 
 fn run_case(line: &str) -> String {
-    let (mode, ops) = line.split_once('|').unwrap();
+    let (head, ops) = line.split_once('|').unwrap();
+    let mut hs = head.split_whitespace();
+    let mode = hs.next().unwrap();
+    let stat = match hs.next() { Some("-") | None => Vec::new(), Some(h) => unhex(h) };
     quarantine(true);
-    let r = match mode.trim() {
-        "s" => run_ops::<SharedString>(ops),
-        "t" => run_ops::<TCow>(ops),
-        "k" => run_ops::<Key>(ops),
+    let r = match mode {
+        "s" => run_ops::<SharedString>(&stat, ops),
+        "t" => run_ops::<TCow>(&stat, ops),
+        "k" => run_ops::<Key>(&stat, ops),
+        "l" => run_ops::<LCow>(&stat, ops),
         m => panic!("bad mode {}", m),
     };
     quarantine(false);
